@@ -221,9 +221,19 @@ func init() {
 				}
 				cs = append(cs, c)
 			}
+			soaks := 2
+			if tier == "thorough" {
+				soaks = 12
+			}
+			for i := 0; i < soaks; i++ {
+				cs = append(cs, CaseSpec{Kind: "soak", P: map[string]int64{"n": int64(3 + i%3), "txs": 240}})
+			}
 			return cs
 		},
 		Run: func(cs CaseSpec) *CaseResult {
+			if cs.Kind == "soak" {
+				return runLiveSoak(cs)
+			}
 			if cs.Kind == "orders" {
 				return runC03(cs)
 			}
@@ -250,9 +260,19 @@ func init() {
 					delete(cs[i].P, "rejoin")
 				}
 			}
+			soaks := 2
+			if tier == "thorough" {
+				soaks = 12
+			}
+			for i := 0; i < soaks; i++ {
+				cs = append(cs, CaseSpec{Kind: "soak", P: map[string]int64{"n": int64(3 + i%3), "txs": 240}})
+			}
 			return cs
 		},
 		Run: func(cs CaseSpec) *CaseResult {
+			if cs.Kind == "soak" {
+				return runLiveSoak(cs)
+			}
 			return runHistory(cs, func(nw *Network) []Monitor { return []Monitor{NewMonFinality(), NewMonReach()} }, nil)
 		},
 		PerCaseTimeout: 15 * time.Minute,
@@ -289,9 +309,19 @@ func init() {
 					cs[i].P["badger"] = 0
 				}
 			}
+			soaks := 2
+			if tier == "thorough" {
+				soaks = 12
+			}
+			for i := 0; i < soaks; i++ {
+				cs = append(cs, CaseSpec{Kind: "soak", P: map[string]int64{"n": int64(3 + i%3), "txs": 240}})
+			}
 			return cs
 		},
 		Run: func(cs CaseSpec) *CaseResult {
+			if cs.Kind == "soak" {
+				return runLiveSoak(cs)
+			}
 			return runHistory(cs, func(nw *Network) []Monitor { return []Monitor{NewMonTxIntegrity()} }, nil)
 		},
 		PerCaseTimeout: 15 * time.Minute,
